@@ -56,7 +56,7 @@ man = {
    "kind_free_text": "Hypothesis 6.168 generated-input search (plus complete enumeration of small finite sub-domains) against explicit oracles, collect-classify-shrink with known-findings file; ./check <id> quick|thorough"},
  ],
  "checks": [],
- "notes": "All checks: exit 0 held / exit 1 + VIOLATION line / exit 2 harness error. VERIF_SEED seeds every generator. known_findings.json lists open and fixed genuine defects with witnesses; seeded/ holds 179 independently written breaking changes (re-based onto the repaired tree; those neutralised by a later repair of the defect they relied on carry a note_after_later_fix), benign/ holds 90 independently written behaviour-preserving rewrites, legitimate behaviour changes and differently-made free choices on which every check stayed quiet after the five oracle over-reaches they exposed were corrected, hunts/ holds 30 independent bug-hunting reports on the unchanged tree whose in-domain findings the checks were extended to find by themselves (43 further repairs, 5 open findings) (see DESIGN.md 7.5, 7.5b, 7.5c).",
+ "notes": "All checks: exit 0 held / exit 1 + VIOLATION line / exit 2 harness error. VERIF_SEED seeds every generator. known_findings.json lists open and fixed genuine defects with witnesses; seeded/ holds 179 independently written breaking changes (re-based onto the repaired tree; those neutralised by a later repair of the defect they relied on carry a note_after_later_fix), benign/ holds 90 independently written behaviour-preserving rewrites, legitimate behaviour changes and differently-made free choices on which every check stayed quiet after the five oracle over-reaches they exposed were corrected, hunts/ holds 30 independent bug-hunting reports on the unchanged tree whose in-domain findings the checks were extended to find by themselves (43 further repairs plus 6 from an adversarial review of those repairs, 5 open findings) (see DESIGN.md 7.5, 7.5b, 7.5c, 7.5d).",
  "not_applicable": [],
 }
 for pid in ids:
